@@ -1663,7 +1663,13 @@ class Interp:
             tv = self.truth(args[0])
             return args[0] if tv is None else tv
         if name in ("max", "min"):
-            items = list(args[0]) if len(args) == 1 and isinstance(args[0], (list, tuple, np.ndarray)) else list(args)
+            items = list(self.iterate(args[0])) if len(args) == 1 else list(args)
+            if kw.get("key") is not None:
+                keys = [S(self.apply(kw["key"], [x], {})) for x in items]
+                if not all(k.is_number and k.is_real for k in keys):
+                    raise OutsideFragment(f"{name}(..., key=) over data-dependent keys")
+                pick = (max if name == "max" else min)(range(len(items)), key=lambda i: keys[i])
+                return items[pick]
             if all(is_static_int(x) and not isinstance(x, sp.Basic) for x in items):
                 return (max if name == "max" else min)(int(x) for x in items)
             f = sp.Max if name == "max" else sp.Min
@@ -1694,7 +1700,13 @@ class Interp:
         if name == "reversed":
             return list(reversed(self.iterate(args[0])))
         if name == "sorted":
-            return sorted(self.iterate(args[0]))
+            items = list(self.iterate(args[0]))
+            keyf = kw.get("key")
+            keys = [S(self.apply(keyf, [x], {})) if keyf is not None else x for x in items]
+            if not all(isinstance(k, (int, float, str, tuple)) or (isinstance(k, sp.Basic) and k.is_number and k.is_real) for k in keys):
+                raise OutsideFragment("sorted() over data-dependent keys")
+            order = sorted(range(len(items)), key=lambda i: keys[i], reverse=bool(kw.get("reverse", False)))
+            return [items[i] for i in order]
         if name == "isinstance":
             return self.isinstance(args[0], args[1])
         if name == "round":
